@@ -728,14 +728,6 @@ func (c *ControlPlane) handlePkt(lConn *net.UDPConn, data []byte, src, realDst n
 			// Not a QUIC Initial packet - skip sniffing entirely.
 			// Even if there's an existing sniffer session, non-QUIC packets
 			// should not be delayed by the sniffing process.
-			//
-			// This packet creates the flow's endpoint, after which sniffing never
-			// resumes for the flow. Datagrams an unfinished sniff is still holding
-			// back would be stranded until the session expires, so release them
-			// now, ahead of this packet, in ingress order.
-			if flowDecision.HasSnifferSession {
-				replayPackets = DefaultPacketSnifferSessionMgr.TakeFlowFamilyBufferedPackets(flowDecision.PacketSnifferKey())
-			}
 			goto afterSniffing
 		}
 
@@ -867,6 +859,16 @@ func (c *ControlPlane) handlePkt(lConn *net.UDPConn, data []byte, src, realDst n
 	}
 
 afterSniffing:
+	// From here on the packet is forwarded and the flow has (or now gets) its endpoint, after
+	// which sniffing never resumes for the flow. Datagrams that an unfinished sniff of this flow
+	// family is still holding back - this connection's, or another QUIC connection's on the same
+	// addresses - would be stranded until their session expires: release them now, ahead of this
+	// packet, each session's datagrams in ingress order.
+	if flowDecision.HasSnifferSession {
+		if held := DefaultPacketSnifferSessionMgr.TakeFlowFamilyBufferedPackets(flowDecision.PacketSnifferKey()); len(held) > 0 {
+			replayPackets = append(replayPackets, held...)
+		}
+	}
 	if routingResult.Mark == 0 {
 		routingResult.Mark = c.soMarkFromDae
 	}
